@@ -626,3 +626,7 @@ Lemma ring_history_observed :
   last (run ring_pool NewState ring_script) None =
   Some (mkObs [] 0 (Ok [0; 1; 2; 3; 4; 5; 6; 7; 8; 9; 10; 0]%N)) /\ writes (snd (match gexec ring_pool (NewState, g0) ring_script with Ok sg => sg | _ => (NewState, g0) end)) = 12.
 Proof. vm_compute. split; reflexivity. Qed.
+
+Theorem inv_reachable_new : forall pool cs, Forall (call_in_pool pool) cs ->
+  exists sg', gexec pool (NewState, g0) cs = Ok sg' /\ Inv sg'.
+Proof. intros pool cs H. exact (inv_reachable pool cs _ Inv_new H). Qed.
